@@ -74,7 +74,9 @@ Outcome run_case(const json& c, const std::string& prop) {
     eng.clear_probe_defs();
     eng.unregister_classes();
     eng.reset_tables();
-    Eng::install_handler();
+    // (the legacy route only carries resolution errors: not for the cases
+    // that provoke unknown_class / method_table errors)
+    Eng::install_handler(c.value("legacy_handler", false) && !focus.unreg);
     g_log.clear();
 
     int style = c.value("style", 0);
